@@ -49,6 +49,36 @@ BUILT = {
     text="Same exploration as C02 with whitespace-rich filler (interior double spaces, trailing spaces, blank and indented lines): every maximal surviving stretch, trimmed, must occur verbatim and in order in the output (line by line inside unwrapped bodies).",
     note="Trusted: reference extents (as C02) and a greedy left-to-right substring search (sound: earliest match can only help).",
     design="3/C14"),
+  "C05": dict(
+    technique="exhaustive enumeration of a finite decision grid (now x zone x offset x spelling x delta; malformed classes) on the real evaluator and on clean(), vs. integer civil-time reference",
+    text="Every combination of 9 current instants (each written in 3 zones), every UTC offset from -12:00 to +14:00 (15-minute steps quick, 1-minute steps thorough) in both spellings and 25 second-resolution deltas around the boundary is decided twice by the real code (TimeLimitedEvaluator::is_removal and clean on a probe) and compared with an integer-arithmetic reference that does not use chrono; every malformed `to` class and unparseable offset is crossed with all offsets and a far-future now; monotonicity is checked on a multi-element document over all ordered pairs of a now-grid.",
+    note="Trusted: days-from-civil arithmetic (60 lines). chrono leniencies not named by the statement (second 60, unpadded fields, '+09') are not asserted either way.",
+    design="3/C05"),
+  "C06": dict(
+    technique="exhaustive enumeration of a finite product (all target subsets x name forms x skip layouts x orders x tag-name configurations x element tags) on clean(); command-line rows on the real binary",
+    text="All subsets of a name pool (prefixes, superstrings, case variants, empty string, every default string shown by --help) are crossed with every way the element can spell its name and carry or quote `skip`, under four tag-name configurations and four element tag names; each probe is decided by clean() and compared with the stated rule. The rows 'no target option', 'flag', 'config file' run the real binary with an oracle that does not go through the library.",
+    note="Trusted: the reference tag reader and rule (shared with C02-C04). The CLI rows need the binary built from /repo's tree.",
+    design="3/C06"),
+  "C11": dict(
+    technique="exhaustive enumeration of all unwrap layouts within a parameter box (choice-point DFS) on clean(); line-level oracle by construction",
+    text="All documents with one unwrap element (ready / pending / skip), m = 0..M lines between the tags over a five-kind line alphabet, every position of a nested ready or pending element, lines before/after, tag indentation and final newline are cleaned by the real code; exactly the four lines named by the property (and a nested ready element) must disappear from the sequence of non-blank lines, or the document must come back byte-identical where the property says so.",
+    note="Trusted: the generator's bookkeeping of which lines are removed. Bounded by M (4 quick, 6 thorough) and the alphabets.",
+    design="3/C11"),
+  "C12": dict(
+    technique="exhaustive enumeration of all indentation layouts within a parameter box (choice-point DFS, unwrap nesting to depth 2-3) on clean(); per-line dedent oracle by construction",
+    text="All layouts over indentation unit, tag indent, first-inner-line indent, further inner lines at every indent from 0 to F+E, blank lines, nested default-strategy elements and nested unwrap-blocks are cleaned by the real code and every surviving body line is compared with the dedent rule; nested blocks by sequential composition, asserted where inside-out and outside-in composition agree.",
+    note="Trusted: the 15-line dedent rule and the composition bookkeeping. One open known finding (indented tag on line 1 of the file) is listed in known_findings.jsonl.",
+    design="3/C12"),
+  "C13": dict(
+    technique="exhaustive enumeration of all block layouts within a parameter box (choice-point DFS) on clean(); line-identity and blank-line-count oracles by construction",
+    text="All layouts of 1-3 ready default-strategy blocks with every combination of 0..M blank / whitespace-only lines before and after each, tag and code indentation in spaces and tabs, optional pending parent, multi-byte lines, lines before/after and final newline are cleaned by the real code; the non-blank output lines must be exactly the surviving input lines byte for byte, and a+b-[a>0 and b>0] blank lines must remain around every isolated block.",
+    note="Trusted: generator bookkeeping. One open known finding (indented tag on line 1 of the file) is listed in known_findings.jsonl.",
+    design="3/C13"),
+  "C20": dict(
+    technique="exhaustive enumeration of a finite product of CLI option menus and environments; the real binary is executed for every combination and compared byte for byte with the in-process library",
+    text="Every combination of document, mode, input route (file / stdin pipe), output route (stdout / new file / in place), default or custom delimiters and tag names, offset, current instant, target source (none / flags / config file / both / file with empty line), TZ and locale runs the real executable; bytes, exit status and stdout emptiness are compared with the library result for the documented defaults.",
+    note="Trusted: the library (its own properties are C01-C19) as oracle for the wrapper; tzdata in the sandbox.",
+    design="3/C20"),
 }
 
 PENDING_REASON = "check designed (DESIGN.md section 3) but its engine is not built yet in this revision; not claimed until it runs"
